@@ -202,6 +202,46 @@ let respond (line : String.t) : String.t =
      | Node (lb, [ Node (lg, g); tr; self; wh; items ]) ->
        show_term (Node (lb, [ Node (lg, List.map (ren_gp ix) g); ren ix tr; ren ix self; ren ix wh; ren ix items ]))
      | _ -> "badblock")
+  | [ "validate"; items; groups ] ->
+    (* items: (Items "" (Trait "name;unsafe" (TI ..)..) (VImpl "trait;unsafe" (II ..)..)..);
+       groups: "0,1;2" = indices of the impls of each family, in family order *)
+    let kids t = match t with Node (_, ks) -> ks in
+    let fields t = String.split_on_char ';' (of_coq (match t with Node (l, _) -> l.ld)) in
+    let rec int_to_nat n = if n <= 0 then O else S (int_to_nat (n - 1)) in
+    let kind = function "const" -> IKConst | "type" -> IKType | _ -> IKFn in
+    let titem t = (match fields t with
+        | [ k; n; d; g ] -> { i_kind = kind k; i_name = to_coq n; i_vis = to_coq ""; i_ngen = int_to_nat (int_of_string g); i_default = (d = "true") }
+        | _ -> raise (Parse_error "bad trait item")) in
+    let iitem t = (match fields t with
+        | [ k; n; v; g ] -> { i_kind = kind k; i_name = to_coq n; i_vis = to_coq v; i_ngen = int_to_nat (int_of_string g); i_default = false }
+        | _ -> raise (Parse_error "bad impl item")) in
+    let all = kids (parse_term items) in
+    let tr = List.hd all and impls = List.tl all in
+    let vimpl t = (match fields t with
+        | [ n; u ] -> { v_trait = (if n = "-" then None else Some (to_coq n)); v_unsafe = (u = "true"); v_items = List.map iitem (kids t) }
+        | _ -> raise (Parse_error "bad impl")) in
+    let impls = Array.of_list (List.map vimpl impls) in
+    let groups = List.map (fun g -> List.map (fun i -> impls.(int_of_string i)) (String.split_on_char ',' g)) (String.split_on_char '|' groups) in
+    let name = function
+      | DoesntMatchTrait -> "Doesn't match trait definition"
+      | ExpectedTraitImpl -> "Expected trait impl, found inherent impl"
+      | MissingInImpl -> "Missing in one of the impls"
+      | NotInTrait -> "Not found in trait definition"
+      | ExpectedInherent -> "Expected inherent impl but found trait"
+      | NotInOneOfImpls -> "Not found in one of the impls"
+      | GenericsDontMatch -> "Generics don't match between impls"
+      | VisibilityDoesntMatch -> "Visibility doesn't match between impls" in
+    let res = (match tr with
+        | Node (l, tis) when of_coq l.lk = "Trait" ->
+          (match fields tr with
+           | [ n; u ] ->
+             let t = { t_name = to_coq n; t_unsafe = (u = "true"); t_items = List.map titem tis } in
+             List.map (fun g -> validate_trait t g) groups
+           | _ -> raise (Parse_error "bad trait"))
+        | _ -> List.map validate_inherent groups) in
+    (match List.find_opt (fun d -> d <> None) res with
+     | Some (Some d) -> name d
+     | _ -> "ok")
   | [ "wf"; s ] ->
     (match subs_of_term (parse_term s) with
      | None -> "nosubs"
